@@ -297,11 +297,15 @@ calls:
     call: "target.TargetService.Auth"
     payload: '{"login": "{{.request.c1.preprocessor.u}}", "pass": "{{.request.c1.postprocessor.hello}}"}'
     metadata: {"x-row": "{{.request.c1.preprocessor.u}}"}
+  - name: "c3"
+    tag: "order"
+    call: "target.TargetService.Order"
+    payload: '{"user_id": 7, "item_id": 9, "token": "{{.request.c1.preprocessor.u}}"}'
 scenarios:
   - name: "s1"
     weight: 1
     min_waiting_time: 0
-    requests: ["c1", "c2"]
+    requests: ["c1", "c2", "c3"]
 `, csvPath)
 	base := vkit.WriteMem(nil)
 	vkit.RemoveMem(base)
@@ -331,6 +335,16 @@ scenarios:
 	}
 	var rowsUsed []string
 	for _, call := range tgt.Calls() {
+		if o, ok := call.Req.(*server.OrderRequest); ok {
+			// the third call declares no metadata: none of the earlier calls' keys may come with it
+			for _, k := range []string{"x-row", "x-static"} {
+				if v := call.MD.Get(k); len(v) > 0 {
+					fail("foreign-metadata", "call Order (row %s) declares no metadata, the server received %s=%v", o.Token, k, v)
+				}
+			}
+			res.Count("calls_matched", 1)
+			continue
+		}
 		row := markerOf(call.Req)
 		md := call.MD.Get("x-row")
 		if len(md) != 1 || md[0] != row {
@@ -363,8 +377,8 @@ scenarios:
 	if fmt.Sprint(rowsUsed) != fmt.Sprint(want) {
 		fail("rows", "rows used %v, want consecutive rows round-robin %v", rowsUsed, want)
 	}
-	if n := len(aggr.Snapshot()); n != 2*c.Shots {
-		fail("samples", "%d samples for %d shots of 2 calls", n, c.Shots)
+	if n := len(aggr.Snapshot()); n != 3*c.Shots {
+		fail("samples", "%d samples for %d shots of 3 calls", n, c.Shots)
 	}
 	res.Count("scenario_pools", 1)
 }
